@@ -97,7 +97,7 @@ def run_shard(cfg):
         if i % 2 == 0:
             G.poison(got[0])
             c.inc("decoded_values_mutated_in_place")
-        # dumpb/loadb for objects
+        # dumpb/loadb for objects; the compressed and the persisted form carry the same encoding
         if isinstance(v, S.Serializable):
             try:
                 b2 = v.dumpb()
@@ -107,6 +107,17 @@ def run_shard(cfg):
                     viol("dumpb-loadb-differs", "dumpb/loadb disagree with serialize_value for %s" % type(v).__name__, {"value": short(v, 80)})
             except Exception as e:
                 viol("dumpb-loadb-raised", "dumpb/loadb raised %r for %s" % (e, type(v).__name__), {"value": short(v, 80)})
+            if i % 5 == 0:
+                try:
+                    o3 = S.Serializable.loadz(v.dumpz())
+                    st_ = BytesIO()
+                    v.store_persistant(st_)
+                    o4 = S.Serializable.load_persistant(st_.getvalue())
+                    c.inc("dumpz_and_persisted_roundtrips")
+                    if G.canon(o3) != want or G.canon(o4) != want:
+                        viol("secondary-codec-differs", "%s of %s does not give the object back" % ("dumpz/loadz" if G.canon(o3) != want else "store_persistant/load_persistant", type(v).__name__), {"value": short(v, 80)})
+                except Exception as e:
+                    viol("secondary-codec-raised", "dumpz/loadz or store_persistant/load_persistant raised %r for %s" % (e, type(v).__name__), {"value": short(v, 80)})
         # a history of refused (truncated / damaged) inputs must not disturb later decodes
         if i % 3 == 0 and len(b) > 3:
             bad = b[:r.randrange(3, len(b))] if i % 5 else bytes([b[0], b[1] ^ 0x40]) + b[2:]
@@ -200,7 +211,7 @@ def finish(tier, seed, results):
     inconclusive = []
     need(m["counters"], ["values", "encoded", "roundtrips_equal", "concatenations", "dumpb_loadb", "out_of_domain_refused", "limit_values_roundtrip",
                          "refused_inputs_interleaved", "decodes_after_refused_input_equal", "fields_none_with_non_none_default",
-                         "boundary_strings_roundtrip", "decoded_values_mutated_in_place"], inconclusive)
+                         "boundary_strings_roundtrip", "decoded_values_mutated_in_place", "dumpz_and_persisted_roundtrips"], inconclusive)
     cov = {
         "evaluations": m["evaluations"],
         "distinct_nontrivial": m["distinct_nontrivial"],
